@@ -38,7 +38,6 @@ Definition bucket (t : table) (k : key) : list entry :=
 Definition pm (r : re) : re := mkCat r (mkStar anyc).
 Definition pymatch (r : re) (s : ustring) : bool := matches (pm r) (s ++ [EOS]).
 
-Definition tag_str : ustring := u "tag:yaml.org,2002:str"%string.
 
 Fixpoint first_hit (lst : list entry) (s : ustring) : option ustring :=
   match lst with
